@@ -269,6 +269,9 @@ def stream_identity_rule(repo: Repo, rep: Report, rid: str) -> None:
 
 
 def run(repo: Repo, rep: Report, tier: str) -> None:
+    from .compiled import compiled_fold_rule
+
+    compiled_fold_rule(repo, rep, "C16.R7", tier)
     config_rule(repo, rep, "C16.R1")
     construction_parity_rule(repo, rep, "C16.R2")
     arithmetic_rule(repo, rep, "C16.R3")
